@@ -1,14 +1,14 @@
 SPECIFICATION SSpec
 CONSTANTS
-  T = 216
+  T = 4099
   InitCap = 32
   Realloc = TRUE
-  MaxChunks = 2
-  Sizes = {0, 1, 7, 16, 20, 33, 38}
+  MaxChunks = 3
+  Sizes = {0, 3, 15, 16, 17, 1000, 1008, 4000, 9000}
   KeysU = {1}
   TrackContent = FALSE
   MaxInserts = 0
   ExceededUsesCapacity = TRUE
-  GenLen = 0
-INVARIANTS Bookkeeping VolumeBound LiveBound2
+  GenLen = 60
+INVARIANTS Bookkeeping LiveBound2 EmitSizes
 CHECK_DEADLOCK FALSE
